@@ -30,7 +30,8 @@ def one(d: Path):
     return name, r
 
 
-with ThreadPoolExecutor(max_workers=3) as ex:
+import os
+with ThreadPoolExecutor(max_workers=int(os.environ.get("SEED_PAR", "3"))) as ex:
     for name, r in ex.map(one, dirs):
         if r is None:
             continue
